@@ -85,7 +85,7 @@ def _hostile_name(rng, sbx_root_placeholder="@SBX@") -> tuple[str, list[str]]:
         return rng.choice([".hidden" + ext, "d/.hidden" + ext, "__MACOSX/res" + ext, "__MACOSX/._res" + ext, ".DS_Store", "./.hidden" + ext, "./._res" + ext,
                            "./d/.env" + ext, "././.x" + ext]), ["hidden"]
     if r < 0.61:
-        return rng.choice(["inner.zip", "d/inner.tar.gz", "x.7z", "y.tgz", "z.TAR", "n.gz", "d/n.bz2", "n.xz", "n.tar.xz", "N.TBZ2"]), ["nested"]
+        return rng.choice(["inner.zip", "d/inner.tar.gz", "x.7z", "y.tgz", "z.TAR", "n.gz", "d/n.bz2", "n.xz", "n.tar.xz", "N.TBZ2", "inner.zip ", "docs/inner.zip\t", "inner.tgz  ", " lead.7z"]), ["nested"]
     if r < 0.66:
         return rng.choice(["prog.exe", "pic.png", "noext", "blob.bin", "x.unknownext"]), ["unsupported"]
     if r < 0.72:
@@ -106,13 +106,13 @@ def _gen_archive(rng, tier):
         m = {"name": name, "kind": kind, "classes": classes, "token": f"TOK{i}q{rng.randrange(10000)}", "pad": rng.choice([0, 0, 20, 400]),
              "doc": (name.rsplit(".", 1)[-1].lower() if "." in name.rsplit("/", 1)[-1] else "txt")}
         if "nested" in classes:
-            m["doc"] = "nested:" + name.rsplit("/", 1)[-1].lower()
+            m["doc"] = "nested:" + name.rsplit("/", 1)[-1].strip().lower()
         elif m["doc"] not in ("txt", "csv", "md", "html", "json"):
             m["doc"] = "txt"
         r = rng.random()
         if fmt.startswith("tar") and r < 0.22:
             m["kind"] = rng.choice(["symlink", "symlink", "hardlink", "chr", "blk", "fifo"])
-            m["link"] = rng.choice(["@SBX@/host/secret.txt", "../../host/secret.txt", "/etc/passwd", "secret.txt", "../host/secret.txt"])
+            m["link"] = rng.choice(["@SBX@/host/secret.txt", "../../host/secret.txt", "/etc/passwd", "secret.txt", "../host/secret.txt", "@MEMBER@", "@MEMBER@"])
             if m["name"] in ("", "/", ".", ".."):
                 m["name"] = "lnk.txt"
             m["classes"] = classes + ["tar_special"]
@@ -127,6 +127,15 @@ def _gen_archive(rng, tier):
         if "degenerate" in classes and m["kind"] == "file" and fmt == "zip":
             m["kind"] = "dir" if name.endswith("/") else "file"
         members.append(m)
+    # a tar link may also point at another member of the same archive -- preferably one that must not produce a result
+    inel = [m for m in members if m["kind"] == "file" and any(c in m.get("classes", []) for c in ("hidden", "unsupported", "oversize", "nested"))]
+    anyfile = [m for m in members if m["kind"] == "file"]
+    for m in members:
+        if m.get("link") == "@MEMBER@":
+            tgt = rng.choice(inel or anyfile) if (inel or anyfile) else None
+            m["link"] = tgt["name"] if tgt else "nowhere.txt"
+            if m["name"] in ("", "/", ".", "..") or not m["name"].lower().endswith((".txt", ".csv", ".md", ".html", ".json")):
+                m["name"] = "copy_of_member.txt"
     spec = {"fmt": fmt, "members": members}
     if fmt == "zip":
         spec["zip_method"] = rng.choice(["stored", "deflated"])
@@ -152,7 +161,7 @@ def gen_case(rng: random.Random, tier: str) -> dict:
             a["spec"]["members"].append({"name": role, "kind": "file", "classes": ["hidden" if role.startswith(("__MACOSX", ".")) else "plain", "shared"],
                                          "token": f"TOKs{rng.randrange(10000)}", "pad": 0, "doc": base.rsplit(".", 1)[-1]})
     return {"archives": archives, "knob": rng.choice([None, None, 300, 1000]), "consumer": "enumerate", "fsfaults": "enumerate",
-            "tokens": [f"{rng.randrange(16 ** 8):08x}", f"{rng.randrange(16 ** 8):08x}"], "interleave": rng.random() < 0.25}
+            "tokens": [f"{rng.randrange(16 ** 8):08x}", f"{rng.randrange(16 ** 8):08x}"], "interleave": rng.random() < 0.4}
 
 
 # ------------------------------------------------------------------------------------------------ helpers
@@ -330,8 +339,8 @@ def _check_history(run, sbx, fmt, classes, mode, k, results, exc, events, fds0, 
                 reason = "hidden"
             elif nm.startswith("__MACOSX/"):
                 reason = "macos_resource_fork"
-            elif base.lower().endswith((".zip", ".tar", ".tar.gz", ".tgz", ".tar.bz2", ".tbz2", ".tar.xz", ".txz", ".7z", ".gz", ".bz2", ".xz")):
-                reason = "nested_archive"
+            elif base.strip().lower().endswith((".zip", ".tar", ".tar.gz", ".tgz", ".tar.bz2", ".tbz2", ".tar.xz", ".txz", ".7z", ".gz", ".bz2", ".xz")):
+                reason = "nested_archive"  # (a padded name such as 'inner.zip ' is either an unsupported type or a nested archive: no result either way)
             elif m["kind"] not in ("file",):
                 reason = "non_regular_or_ghost_member:" + m["kind"]
             elif len(archgen.member_bytes(m)) > limit:
@@ -501,6 +510,23 @@ def _interleave(run, sbx, built, case):
         sbx.leave()
     gens = None
     gc.collect()
+    # the same two archives one after the other: interleaving must not change what either of them yields
+    seq = []
+    sbx.enter()
+    try:
+        for i, s2, b in arcs:
+            try:
+                seq.append((_digests(list(get_extractor(case["archives"][i]["path"])(io.BytesIO(b), case["archives"][i]["path"]))), None))
+            except Exception as e:
+                seq.append(([], type(e).__name__))
+    finally:
+        sbx.leave()
+    for gi in (0, 1):
+        got = (_digests(outs[gi]), type(excs[gi]).__name__ if excs[gi] else None)
+        if got != seq[gi]:
+            run.viol.append({"class": "results_depend_on_interleaving", "sig": f"{arcs[gi][1]['fmt']}",
+                             "detail": f"archive {arcs[gi][0]} ({arcs[gi][1]['fmt']}) consumed alternately with another archive yields {len(got[0])} results ({got[1]}), "
+                                       f"on its own {len(seq[gi][0])} ({seq[gi][1]})"})
     if sbx.tmp_entries():
         run.viol.append({"class": "tempdir_not_removed", "sig": "interleaved", "detail": f"{sbx.tmp_entries()[:3]} left after two archives were consumed alternately"})
         for x in sbx.tmp_entries():
